@@ -129,6 +129,22 @@ template <class G> struct C09 {
     { T a = t; a = -a; T e = -t; expect(vf::bits_equal(a.coeffs(), e.coeffs()), "t=-t", k); }
     { T a = t; a = a.exp().log(); expect(vf::bits_equal(a.coeffs(), t.exp().log().coeffs()), "t=t.exp().log()", k); }
     { T a = t; a -= a; expect((a.coeffs().array() == S(0)).all() || !vf::all_finite(t.coeffs()), "t-=t", k); }
+    // right-hand sides that are Eigen EXPRESSIONS reading the destination's own coefficients (a product must be evaluated before it is added)
+    {
+      const J M = X.adj();
+      typename T::DataType prod = M * t.coeffs();
+      typename T::DataType plus = t.coeffs() + prod, minus = t.coeffs() - prod;
+      { T a = t; a += M * a.coeffs(); expect(vf::bits_equal(a.coeffs(), plus), "t+=M*t.coeffs()", k); }
+      { T a = t; a -= M * a.coeffs(); expect(vf::bits_equal(a.coeffs(), minus), "t-=M*t.coeffs()", k); }
+      { T a = t; a += a.coeffs(); typename T::DataType e2 = t.coeffs() + t.coeffs(); expect(vf::bits_equal(a.coeffs(), e2), "t+=t.coeffs()", k); }
+      { T a = t; a = M * a; expect(vf::bits_equal(a.coeffs(), prod), "t=M*t", k); }
+      { T tb = t; Eigen::Map<T> m(tb.data()); m += M * m.coeffs(); expect(vf::bits_equal(tb.coeffs(), plus), "MapTangent+=M*Map.coeffs()", k); }
+      { T tb = t; Eigen::Map<T> m(tb.data()); m -= M * m.coeffs(); expect(vf::bits_equal(tb.coeffs(), minus), "MapTangent-=M*Map.coeffs()", k); }
+      { T tb = t; Eigen::Map<T> m(tb.data()); m = M * m.coeffs(); expect(vf::bits_equal(tb.coeffs(), prod), "MapTangent=M*Map.coeffs()", k); }
+      { T a = t; a = a.coeffs(); expect(vf::bits_equal(a.coeffs(), t.coeffs()), "t=t.coeffs()", k); }
+      { G a = X; a = a.coeffs(); expect(vf::bits_equal(a.coeffs(), X.coeffs()), "X=X.coeffs()", k); }
+      { G a = X; a = a; expect(vf::bits_equal(a.coeffs(), X.coeffs()), "X=X", k); }
+    }
     {
       // a view updated in place; a view whose buffer IS the other operand's buffer
       G buf = X; Eigen::Map<G> m(buf.data());
